@@ -168,8 +168,8 @@ class Builder():
         if isinstance(source, str) and not raw_yaml:
             try:
                 with open(os.path.expanduser(source), 'r') as f:
-                    self._current_file = source
-                    source = f.read()
+                    content = f.read()
+                self._current_file, source = source, content # only once the file has been read: a failing read must not leave its name behind
             except (FileNotFoundError, OSError) as e:
                 #OSError(22) is "Invalid argument"
                 #OSError(36) is "File name too long"
